@@ -64,6 +64,199 @@ fn cpj(c: char) -> String {
     format!("U+{:04X} {:?}", c as u32, c)
 }
 
+struct Scratch {
+    m: Matcher,
+    idx: Vec<u32>,
+    hay: Text,
+    needle: Text,
+}
+
+fn check_char(cp: u32, c: char, uref: &UniRef, cfgs: &[Cfg], sc: &mut Scratch, acc: &mut Acc) {
+    let Scratch { m, idx, hay, needle } = sc;
+    acc.evaluations += 1;
+    acc.states += 1;
+    let lower = chars::to_lower_case(c);
+    let upper = chars::is_upper_case(c);
+    let nrm = chars::normalize(c);
+    let mut nontrivial = false;
+    // (1) simple case folding
+    if !uref.unassigned.contains(&cp) {
+        let want = uref.fold.get(&cp).copied().unwrap_or(cp);
+        if lower as u32 != want {
+            acc.violation("C16/fold/value", "to_lower_case differs from Unicode simple case folding", || {
+                json!({"char": cpj(c), "to_lower_case": cpj(lower), "simple_case_folding": format!("U+{want:04X}")})
+            });
+        }
+        if upper != (want != cp) {
+            acc.violation("C16/fold/is_upper_case", "is_upper_case differs from 'has a simple case folding'", || {
+                json!({"char": cpj(c), "is_upper_case": upper, "has_folding": want != cp})
+            });
+        }
+        if want != cp {
+            nontrivial = true;
+        }
+    } else {
+        acc.count("unassigned_in_reference_version(folding unconstrained)", 1);
+    }
+    if upper != (lower != c) {
+        acc.violation("C16/fold/is_upper_vs_to_lower", "is_upper_case(c) disagrees with to_lower_case(c) != c", || json!({"char": cpj(c)}));
+    }
+    // (2) Latin normalisation
+    if !in_blocks(cp) {
+        if nrm != c {
+            acc.violation("C16/normalize/outside_blocks", "normalize changes a character outside its documented blocks", || {
+                json!({"char": cpj(c), "normalize": cpj(nrm)})
+            });
+        }
+    } else {
+        nontrivial = true;
+        if let Some(&base) = uref.nfkd_base.get(&cp) {
+            if nrm as u32 != base {
+                acc.violation("C16/normalize/decomposition", "normalize differs from the ASCII base of the compatibility decomposition", || {
+                    json!({"char": cpj(c), "normalize": cpj(nrm), "nfkd_base": cpj(char::from_u32(base).unwrap())})
+                });
+            }
+            acc.count("in_block_with_ascii_decomposition", 1);
+        } else {
+            acc.count("in_block_unconstrained", 1);
+        }
+    }
+    // (3) idempotence, ASCII stability
+    if chars::to_lower_case(lower) != lower {
+        acc.violation("C16/fold/idempotence", "to_lower_case is not idempotent", || json!({"char": cpj(c), "once": cpj(lower), "twice": cpj(chars::to_lower_case(lower))}));
+    }
+    if chars::normalize(nrm) != nrm {
+        acc.violation("C16/normalize/idempotence", "normalize is not idempotent", || json!({"char": cpj(c), "once": cpj(nrm), "twice": cpj(chars::normalize(nrm))}));
+    }
+    if c.is_ascii() {
+        if nrm != c {
+            acc.violation("C16/normalize/ascii", "normalize changes an ASCII character", || json!({"char": cpj(c)}));
+        }
+        let want = if c.is_ascii_uppercase() { c.to_ascii_lowercase() } else { c };
+        if lower != want {
+            acc.violation("C16/fold/ascii", "to_lower_case wrong on ASCII", || json!({"char": cpj(c)}));
+        }
+    }
+    // (4) coherence of every place that normalises a haystack character
+    for &cfg in cfgs {
+        let t = norm(c, cfg);
+        if norm(t, cfg) != t {
+            // t is not an "already normalised" needle (e.g. U+0194 folds to U+0263, which
+            // Latin normalisation would map again): outside the matcher's precondition.
+            acc.count("composite_normal_form_not_idempotent(skipped, observation only)", 1);
+            continue;
+        }
+        m.config = cfg.to_config();
+        let hays: [&[char]; 3] = [&[c], &['x', c], &['x', c, '-', c]];
+        let needles: [&[char]; 2] = [&[t], &[t, t]];
+        for (hi, h) in hays.iter().enumerate() {
+            hay.set(h);
+            for (ni, n) in needles.iter().enumerate() {
+                // skip combinations where the relation does not hold by construction
+                let occurrences = h.iter().filter(|&&x| norm(x, cfg) == t).count();
+                if occurrences < n.len() {
+                    continue;
+                }
+                needle.set(n);
+                for &ha in hay.reps() {
+                    for &na in needle.reps() {
+                        if ha && !na {
+                            continue; // (Ascii, Unicode) is C01's open finding F2
+                        }
+                        let hv = hay.view(ha);
+                        let nv = needle.view(na);
+                        for &algo in &ALGOS {
+                            // anchored kinds only where the relation holds by construction
+                            let applicable = match algo {
+                                crate::algos::Algo::Exact => h.len() == n.len(),
+                                crate::algos::Algo::Prefix => (0..n.len()).all(|k| norm(h[k], cfg) == n[k]) && !h[0].is_whitespace(),
+                                crate::algos::Algo::Postfix => (0..n.len()).all(|k| norm(h[h.len() - n.len() + k], cfg) == n[k]) && !h[h.len() - 1].is_whitespace(),
+                                crate::algos::Algo::Substring => {
+                                    (0..=h.len() - n.len()).any(|s| (0..n.len()).all(|k| norm(h[s + k], cfg) == n[k]))
+                                }
+                                _ => true,
+                            };
+                            if !applicable {
+                                continue;
+                            }
+                            acc.transitions += 2;
+                            let r = std::panic::catch_unwind(std::panic::AssertUnwindSafe(|| {
+                                let sm = call_match(m, algo, hv, nv);
+                                idx.clear();
+                                let si = call_indices(m, algo, hv, nv, idx);
+                                (sm, si)
+                            }));
+                            let (sm, si) = match r {
+                                Ok(x) => x,
+                                Err(p) => {
+                                    *m = Matcher::new(cfg.to_config());
+                                    let msg = crate::dom::panic_msg(&p);
+                                    acc.violation(&format!("C16/coherence/{}/panic", algo.name()), &format!("matcher panicked: {msg}"), || {
+                                        json!({"char": cpj(c), "cfg": cfg.tag(), "haystack_shape": hi, "needle_shape": ni})
+                                    });
+                                    continue;
+                                }
+                            };
+                            let mut bad: Option<String> = None;
+                            if sm.is_none() || si.is_none() {
+                                bad = Some("rejects a haystack character against its own normal form".into());
+                            } else if sm != si {
+                                bad = Some("score-only and indices variants differ".into());
+                            } else if idx.len() != n.len()
+                                || idx.iter().enumerate().any(|(k, &i)| (i as usize) >= h.len() || norm(h[i as usize], cfg) != n[k])
+                                || idx.windows(2).any(|w| w[1] <= w[0])
+                            {
+                                bad = Some("reports indices that are not a witness".into());
+                            } else if (sm.unwrap() as usize) < 16 * n.len() && idx.windows(2).all(|w| w[1] == w[0] + 1) {
+                                bad = Some("scores a contiguous match below 16 per character".into());
+                            }
+                            if let Some(what) = bad {
+                                let idxc = idx.clone();
+                                acc.violation(&format!("C16/coherence/{}", algo.name()), &format!("{}: {}", algo.name(), what), || {
+                                    json!({"char": cpj(c), "cfg": cfg.tag(), "normal_form": cpj(t), "haystack": common::show(h), "needle": common::show(n),
+                                           "hay_ascii_repr": ha, "needle_ascii_repr": na, "match": sm, "indices_result": si, "indices": idxc})
+                                });
+                            }
+                        }
+                    }
+                }
+            }
+        }
+    }
+    if nontrivial {
+        acc.nontrivial += 1;
+        if cp % 97 == 0 {
+            acc.sample(|| json!({"char": cpj(c), "to_lower_case": cpj(lower), "normalize": cpj(nrm)}));
+        }
+    }
+    acc.outcome(&format!(
+        "{}{}{}",
+        if lower != c { "F" } else { "-" },
+        if nrm != c { "N" } else { "-" },
+        if c.is_ascii() { "A" } else { "-" }
+    ));
+}
+
+pub fn replay_case(c: &common::Value, acc: &mut Acc) {
+    let ref_path = std::env::var("VERIF_UNICODE_REF").unwrap_or_else(|_| machinery_failure("VERIF_UNICODE_REF not set (run through run.sh)"));
+    let uref = load_ref(&ref_path);
+    let txt = c["char"].as_str().unwrap_or("U+0041");
+    let cp = u32::from_str_radix(txt.trim_start_matches("U+").split(' ').next().unwrap_or("41"), 16).unwrap_or(0x41);
+    let Some(ch) = char::from_u32(cp) else { return };
+    let cfgs = all_cfgs();
+    let mut sc = Scratch { m: Matcher::default(), idx: Vec::new(), hay: Text::new(&[]), needle: Text::new(&[]) };
+    check_char(cp, ch, &uref, &cfgs, &mut sc, acc);
+}
+
+fn all_cfgs() -> Vec<Cfg> {
+    vec![
+        Cfg { ignore_case: true, normalize: true, paths: false, prefer_prefix: false },
+        Cfg { ignore_case: true, normalize: false, paths: false, prefer_prefix: false },
+        Cfg { ignore_case: false, normalize: true, paths: false, prefer_prefix: false },
+        Cfg { ignore_case: false, normalize: false, paths: false, prefer_prefix: false },
+    ]
+}
+
 pub fn run(tier: &str, ref_path: &str) -> ! {
     let mut rep = Report::new("C16", tier);
     crate::dom::quiet_panics();
@@ -77,175 +270,11 @@ pub fn run(tier: &str, ref_path: &str) -> ! {
     let chunk = 1024u32;
     let shards = (0x110000 / chunk) as usize;
     let acc = par_shards(shards, threads(), |shard, acc: &mut Acc| {
-        let mut m = Matcher::default();
-        let mut idx: Vec<u32> = Vec::new();
-        let mut hay = Text::new(&[]);
-        let mut needle = Text::new(&[]);
+        let mut sc = Scratch { m: Matcher::default(), idx: Vec::new(), hay: Text::new(&[]), needle: Text::new(&[]) };
         let lo = shard as u32 * chunk;
         for cp in lo..lo + chunk {
             let Some(c) = char::from_u32(cp) else { continue };
-            acc.evaluations += 1;
-            acc.states += 1;
-            let lower = chars::to_lower_case(c);
-            let upper = chars::is_upper_case(c);
-            let nrm = chars::normalize(c);
-            let mut nontrivial = false;
-            // (1) simple case folding
-            if !uref.unassigned.contains(&cp) {
-                let want = uref.fold.get(&cp).copied().unwrap_or(cp);
-                if lower as u32 != want {
-                    acc.violation("C16/fold/value", "to_lower_case differs from Unicode simple case folding", || {
-                        json!({"char": cpj(c), "to_lower_case": cpj(lower), "simple_case_folding": format!("U+{want:04X}")})
-                    });
-                }
-                if upper != (want != cp) {
-                    acc.violation("C16/fold/is_upper_case", "is_upper_case differs from 'has a simple case folding'", || {
-                        json!({"char": cpj(c), "is_upper_case": upper, "has_folding": want != cp})
-                    });
-                }
-                if want != cp {
-                    nontrivial = true;
-                }
-            } else {
-                acc.count("unassigned_in_reference_version(folding unconstrained)", 1);
-            }
-            if upper != (lower != c) {
-                acc.violation("C16/fold/is_upper_vs_to_lower", "is_upper_case(c) disagrees with to_lower_case(c) != c", || json!({"char": cpj(c)}));
-            }
-            // (2) Latin normalisation
-            if !in_blocks(cp) {
-                if nrm != c {
-                    acc.violation("C16/normalize/outside_blocks", "normalize changes a character outside its documented blocks", || {
-                        json!({"char": cpj(c), "normalize": cpj(nrm)})
-                    });
-                }
-            } else {
-                nontrivial = true;
-                if let Some(&base) = uref.nfkd_base.get(&cp) {
-                    if nrm as u32 != base {
-                        acc.violation("C16/normalize/decomposition", "normalize differs from the ASCII base of the compatibility decomposition", || {
-                            json!({"char": cpj(c), "normalize": cpj(nrm), "nfkd_base": cpj(char::from_u32(base).unwrap())})
-                        });
-                    }
-                    acc.count("in_block_with_ascii_decomposition", 1);
-                } else {
-                    acc.count("in_block_unconstrained", 1);
-                }
-            }
-            // (3) idempotence, ASCII stability
-            if chars::to_lower_case(lower) != lower {
-                acc.violation("C16/fold/idempotence", "to_lower_case is not idempotent", || json!({"char": cpj(c), "once": cpj(lower), "twice": cpj(chars::to_lower_case(lower))}));
-            }
-            if chars::normalize(nrm) != nrm {
-                acc.violation("C16/normalize/idempotence", "normalize is not idempotent", || json!({"char": cpj(c), "once": cpj(nrm), "twice": cpj(chars::normalize(nrm))}));
-            }
-            if c.is_ascii() {
-                if nrm != c {
-                    acc.violation("C16/normalize/ascii", "normalize changes an ASCII character", || json!({"char": cpj(c)}));
-                }
-                let want = if c.is_ascii_uppercase() { c.to_ascii_lowercase() } else { c };
-                if lower != want {
-                    acc.violation("C16/fold/ascii", "to_lower_case wrong on ASCII", || json!({"char": cpj(c)}));
-                }
-            }
-            // (4) coherence of every place that normalises a haystack character
-            for &cfg in &cfgs {
-                let t = norm(c, cfg);
-                if norm(t, cfg) != t {
-                    // t is not an "already normalised" needle (e.g. U+0194 folds to U+0263, which
-                    // Latin normalisation would map again): outside the matcher's precondition.
-                    acc.count("composite_normal_form_not_idempotent(skipped, observation only)", 1);
-                    continue;
-                }
-                m.config = cfg.to_config();
-                let hays: [&[char]; 3] = [&[c], &['x', c], &['x', c, '-', c]];
-                let needles: [&[char]; 2] = [&[t], &[t, t]];
-                for (hi, h) in hays.iter().enumerate() {
-                    hay.set(h);
-                    for (ni, n) in needles.iter().enumerate() {
-                        // skip combinations where the relation does not hold by construction
-                        let occurrences = h.iter().filter(|&&x| norm(x, cfg) == t).count();
-                        if occurrences < n.len() {
-                            continue;
-                        }
-                        needle.set(n);
-                        for &ha in hay.reps() {
-                            for &na in needle.reps() {
-                                if ha && !na {
-                                    continue; // (Ascii, Unicode) is C01's open finding F2
-                                }
-                                let hv = hay.view(ha);
-                                let nv = needle.view(na);
-                                for &algo in &ALGOS {
-                                    // anchored kinds only where the relation holds by construction
-                                    let applicable = match algo {
-                                        crate::algos::Algo::Exact => h.len() == n.len(),
-                                        crate::algos::Algo::Prefix => (0..n.len()).all(|k| norm(h[k], cfg) == n[k]) && !h[0].is_whitespace(),
-                                        crate::algos::Algo::Postfix => (0..n.len()).all(|k| norm(h[h.len() - n.len() + k], cfg) == n[k]) && !h[h.len() - 1].is_whitespace(),
-                                        crate::algos::Algo::Substring => {
-                                            (0..=h.len() - n.len()).any(|s| (0..n.len()).all(|k| norm(h[s + k], cfg) == n[k]))
-                                        }
-                                        _ => true,
-                                    };
-                                    if !applicable {
-                                        continue;
-                                    }
-                                    acc.transitions += 2;
-                                    let r = std::panic::catch_unwind(std::panic::AssertUnwindSafe(|| {
-                                        let sm = call_match(&mut m, algo, hv, nv);
-                                        idx.clear();
-                                        let si = call_indices(&mut m, algo, hv, nv, &mut idx);
-                                        (sm, si)
-                                    }));
-                                    let (sm, si) = match r {
-                                        Ok(x) => x,
-                                        Err(p) => {
-                                            m = Matcher::new(cfg.to_config());
-                                            let msg = crate::dom::panic_msg(&p);
-                                            acc.violation(&format!("C16/coherence/{}/panic", algo.name()), &format!("matcher panicked: {msg}"), || {
-                                                json!({"char": cpj(c), "cfg": cfg.tag(), "haystack_shape": hi, "needle_shape": ni})
-                                            });
-                                            continue;
-                                        }
-                                    };
-                                    let mut bad: Option<String> = None;
-                                    if sm.is_none() || si.is_none() {
-                                        bad = Some("rejects a haystack character against its own normal form".into());
-                                    } else if sm != si {
-                                        bad = Some("score-only and indices variants differ".into());
-                                    } else if idx.len() != n.len()
-                                        || idx.iter().enumerate().any(|(k, &i)| (i as usize) >= h.len() || norm(h[i as usize], cfg) != n[k])
-                                        || idx.windows(2).any(|w| w[1] <= w[0])
-                                    {
-                                        bad = Some("reports indices that are not a witness".into());
-                                    } else if (sm.unwrap() as usize) < 16 * n.len() && idx.windows(2).all(|w| w[1] == w[0] + 1) {
-                                        bad = Some("scores a contiguous match below 16 per character".into());
-                                    }
-                                    if let Some(what) = bad {
-                                        let idxc = idx.clone();
-                                        acc.violation(&format!("C16/coherence/{}", algo.name()), &format!("{}: {}", algo.name(), what), || {
-                                            json!({"char": cpj(c), "cfg": cfg.tag(), "normal_form": cpj(t), "haystack": common::show(h), "needle": common::show(n),
-                                                   "hay_ascii_repr": ha, "needle_ascii_repr": na, "match": sm, "indices_result": si, "indices": idxc})
-                                        });
-                                    }
-                                }
-                            }
-                        }
-                    }
-                }
-            }
-            if nontrivial {
-                acc.nontrivial += 1;
-                if cp % 97 == 0 {
-                    acc.sample(|| json!({"char": cpj(c), "to_lower_case": cpj(lower), "normalize": cpj(nrm)}));
-                }
-            }
-            acc.outcome(&format!(
-                "{}{}{}",
-                if lower != c { "F" } else { "-" },
-                if nrm != c { "N" } else { "-" },
-                if c.is_ascii() { "A" } else { "-" }
-            ));
+            check_char(cp, c, &uref, &cfgs, &mut sc, acc);
         }
     });
     rep.acc.merge(acc);
